@@ -580,6 +580,10 @@ class Checker:
                 ctx.count(f"documented_refusal:{cls}")
                 return None
             q = qual(e)
+            if f"{cls}:{q}" == "DetuningMap:3d" or q == "DetuningMap:3d":
+                # the abstract format has no z coordinate for detuning-map traps: outside the format (as in C04)
+                ctx.gray("3d-detuning-map-not-in-abstract-format")
+                return None
             ctx.violation("serialise", f"{cls}: serialisation raised {type(e).__name__}: {str(e)[:300]}",
                           mech=f"serialise-raises:{q}" if ":" in q else f"serialise-raises:{cls}:{q}")
             return None
